@@ -7,7 +7,8 @@ import storefam
 import vlib
 
 PID = "C06"
-FILES = ["theories/Properties/C06.v", "theories/Examples/C06Wirings.v", "theories/Examples/C06Examples.v"]
+FILES = ["theories/Properties/C06.v", "theories/Properties/C06Links.v", "theories/Examples/C06Wirings.v", "theories/Examples/C06Examples.v",
+         "theories/Examples/C06LinksExamples.v"]
 
 
 # ------------------------------------------------------------------ case tokens -> operations
@@ -49,7 +50,7 @@ def tx_ops(t):
             ops.append((k, s, i))
         elif k == "D":
             ops.append((k, nxt(), nxt()))
-        elif k in ("AL", "RL"):
+        elif k in ("AL", "RL", "AL1", "RL1", "LQ"):
             s, i = nxt(), nxt()
             nxt()
             for _ in range(int(nxt())):
@@ -187,6 +188,10 @@ def oracle(sch, txs, io):
                 where = "" if nops <= 1 else (" (transaction %d of the history: the delete is operation(s) %s of %d in it%s)" % (
                     k, ",".join(str(j) for j, (kk, s, i) in enumerate(tx_ops(t)) if kk == "D"), nops,
                     "" if any(kk == "D" and sch.root(s) == R and i == X for (kk, s, i) in tx_ops(t)) else "; this entity went through a cascade"))
+                single = [j for j in range(k + 1) if any(kk in ("AL1", "RL1") for (kk, s, i) in tx_ops(txs[j]))]
+                if single and "refset" in kinds:
+                    where += (" (the history adds / removes links one by one through LinkCollection.AddLink / RemoveLink, last in transaction(s) %s)"
+                              % ",".join(str(j) for j in single[-3:]))
                 out.append(("C06:trace-" + kinds[0],
                             "after the committed delete of %s %s (hex id) its id still occurs: %s%s%s" % (
                                 R, X, "; ".join(p[1] for p in probs[:4]),
@@ -204,9 +209,19 @@ def oracle(sch, txs, io):
     return out
 
 
+def link_bools(a):
+    """LB:<op index>:<b>,<b>.. - what the single-link operations of the transaction observed (AddLink / RemoveLink: the
+    returned bool of every call that returned nil; LQ: the membership probes made inside the transaction)"""
+    return sorted(t for t in a["other"] if t.startswith("LB:"))
+
+
 def compare(a, b):
     if storefam.proj_results(a) != storefam.proj_results(b):
         return "results impl %s vs model %s" % (storefam.proj_results(a), storefam.proj_results(b))
+    if link_bools(a) != link_bools(b):
+        return ("bools observed by the single-link operations (LB:<operation>:<bools>; AL1 = AddLink must report 'was not linked', RL1 = "
+                "RemoveLink 'was linked', LQ = IsLinked / IsEntityRelated probes inside the transaction): impl %s vs model %s" % (
+                    link_bools(a), link_bools(b)))
     if a["facts"] != b["facts"]:
         return "state facts differ: only impl %s ; only model %s" % (
             sorted(set(a["facts"]) - set(b["facts"]))[:6], sorted(set(b["facts"]) - set(a["facts"]))[:6])
@@ -300,7 +315,7 @@ def run(c):
         "hand-written store machine coq/theories/Store/Model.v (boltz CRUD, constraints, delete cascade, link cleanup, tx glue)",
         "bbolt as a transactional key/bucket store whose rollback restores the previous content",
         "extraction (ExtrOcamlBasic only) + extraction/store_driver.ml + drv_common.ml",
-        "Go harness store.go / store_gen.go / store_c06.go / store_c06_child.go (schema interpreter, history generator, fact projection - "
+        "Go harness store.go / store_gen.go / store_c06.go / store_c06_child.go / store_c06_links.go (schema interpreter, history generator, fact projection - "
         "string sets inside a child-store bucket are projected to the same S: facts as the model's root-level sets -, ValidateDeleted call) "
         "and lib/storefam.py / checks/c06.py",
         "ref-counted link collections are NOT in the Coq machine: covered by the harness stream + oracle only",
@@ -380,9 +395,9 @@ def run(c):
                 break
         if c.replay:
             for k, (a, b) in enumerate(zip(io, mo)):
-                vlib.log("REPLAY tx %d\n  impl : %s %s %s %s\n  model: %s %s" % (
-                    k, a["results"], "COMMIT" if a["commit"] else "ROLLBACK", a["events"], [t for t in a["other"] if t.startswith("VD:")],
-                    b["results"], "COMMIT" if b["commit"] else "ROLLBACK"))
+                vlib.log("REPLAY tx %d\n  impl : %s %s %s %s %s\n  model: %s %s %s" % (
+                    k, a["results"], "COMMIT" if a["commit"] else "ROLLBACK", a["events"], [t for t in a["other"] if t.startswith("VD:")], link_bools(a),
+                    b["results"], "COMMIT" if b["commit"] else "ROLLBACK", link_bools(b)))
                 ia, ib = set(a["facts"]), set(b["facts"])
                 if ia != ib:
                     vlib.log("  facts only impl : %s\n  facts only model: %s" % (sorted(ia - ib), sorted(ib - ia)))
@@ -433,13 +448,24 @@ def run(c):
         "by the cascade that reaches it, alone or inside the transaction that wrote the mentions, then re-create the id through the parent / the same / "
         "another child store; a quarter are bursts and a quarter the tail of the main stream (incl. never-existed runs) on these wirings. "
         "Plus RCC histories: ref-counted collections declared on a plain child store (pc.cqs <-> q.cps) and on an extended child store "
-        "(qx.xps <-> p.xqs), hub written and deleted through child or parent store. Non-trivial: every history has at least 5 transactions; distinct by case text.")
+        "(qx.xps <-> p.xqs), hub written and deleted through child or parent store. "
+        "LINK-SEQUENCE histories (n/2 more in the quick, n/8 in the thorough tier; wirings idx / cl / C06cp / C06cx / C06cm, generated last): the single-link, "
+        "change-reporting API LinkCollection.AddLink / RemoveLink (operations AL1 / RL1; database as AddLinks / RemoveLinks with one target, returned bool = "
+        "'was not / was a member of the local link set when the call started') and membership probes INSIDE the transaction (LQ: IsLinked, "
+        "LinkedSetSymbol.IsLinked, IsEntityRelated, GetLinks on link sets; IsEntityRelated on back-reference sets and string lists written by the same "
+        "transaction): one pair is linked / unlinked / re-linked by ONE transaction (patterns AR ARA RA AA RR ARR ARAR RAR AAR RAA A R, each step from either side, "
+        "through AL1 / RL1 or AL / RL, on committed or fresh links, entities committed or created by that transaction, peers with ids that are neighbours or "
+        "prefixes of one another), then either end is deleted (same transaction or later, through child or parent store), the id comes back, is probed and "
+        "linked again (must report a new link), the other end goes; the bools are compared with the machine (Store/LinkOne.v) next to results and facts. "
+        "Plus RC sequence histories: one pair of a ref-counted collection counted up / down / set several times inside one transaction, then deletes of either end. "
+        "Non-trivial: every history has at least 5 transactions; distinct by case text.")
     ks = sorted(set((0, len(cases) // 2, max(0, len(cases) - 1))))
     c.cov["samples"] = [dict(case=cases[k][:1500], impl=impl[k][:1500], model=modl[k][:1500]) for k in ks if k < len(cases)]
     try:
         c.cov["input_distribution"] = json.load(open(os.path.join(c.work, "stats.json")))
         for key in ("burst_histories", "burst_delete_tx_committed", "burst_deleted_entities", "child_histories", "child_delete_tx_committed",
-                    "child_deleted_entities", "rc_child_histories"):
+                    "child_deleted_entities", "rc_child_histories", "linkseq_histories", "linkseq_bool_observations", "linkseq_delete_tx_committed",
+                    "linkseq_deleted_entities", "rc_seq_histories"):
             c.cov[key] = c.cov["input_distribution"].get(key, 0)
     except Exception:
         pass
